@@ -73,7 +73,10 @@ func c06Totals(tier string) []*big.Int {
 	h1 := new(big.Int).Add(H, bi(1))
 	e30 := new(big.Int).Exp(bi(10), bi(30), nil)
 	p128 := new(big.Int).Sub(new(big.Int).Lsh(bi(1), 128), bi(1))
-	ts = append(ts, new(big.Int).Set(H), h1, e30, p128)
+	p62 := new(big.Int).Lsh(bi(1), 62)
+	ts = append(ts, new(big.Int).Set(H), h1, e30, p128,
+		// amount x numerator lands in [2^63, 2^64): word-sized fast paths overflow here
+		new(big.Int).Sub(p62, bi(1)), p62, bi(4000000000000000000), new(big.Int).Sub(new(big.Int).Lsh(bi(1), 63), bi(1)), new(big.Int).Lsh(bi(1), 63), new(big.Int).Lsh(bi(1), 61))
 	return ts
 }
 
